@@ -152,8 +152,7 @@ class Attribute:
         if not self._units_settable:
             raise RuntimeError(f"Units of {self.__class__.__name__} cannot be set")
 
-        self._unit_checker(units)
-        self._units = units
+        self._units = self._unit_checker(units)  # the checker returns the unit string also for a Unit enum member
 
     @property
     def count(self) -> Union[int, None]:
